@@ -906,3 +906,18 @@ fn ev_from_bool<B: Fx + From<bool> + LossyFrom<bool>>(c: &mut Ctx) {
     }
 }
 
+// ------------------------------------------------------------------ type aliases
+/// type aliases: the name, the layout the type reports (trait functions), and its inherent INT_NBITS / FRAC_NBITS constants
+fn alias<A: Fx>(c: &mut Ctx, name: &str, int_nbits: u32, frac_nbits: u32) {
+    head(c, "alias");
+    c.wr.raw(",\"name\":");
+    c.wr.bytes(name.as_bytes());
+    c.wr.raw(",\"L\":");
+    c.wr.lay(Lay { s: A::min_value() < A::from_bits(A::from_raw(0).to_bits()), w: (std::mem::size_of::<A>() * 8) as u32, f: A::frac_nbits() });
+    c.wr.raw(",\"ibits\":");
+    c.wr.raw(&int_nbits.to_string());
+    c.wr.raw(",\"fbits\":");
+    c.wr.raw(&frac_nbits.to_string());
+    c.wr.raw("}");
+    c.wr.end();
+}
